@@ -11,9 +11,14 @@
    (clean-up) writes the saved values of exactly those six registers back (ODR before the enables) and the shadow's
              six registers equal the saved ones again.
    (verdict) for all twelve response bytes: no i16 overflow in the differences; Ok iff dx > 1500, dy > 1200, dz > 250.
-   Coherence of the shadow with the device through the whole procedure, including aborted runs, is C16. *)
+   (restore) end to end: whenever the procedure runs to its verdict (Ok or SelfTestFailedError) over the register-level
+             transport, under any fault plan that lets it get there, the shadow afterwards IS the shadow before, and (C16)
+             every shadowed register of the device holds the value it held before (c10_restores).
+   Coherence of the shadow with the device through the whole procedure, including aborted runs, is C16; the ODR rules
+   through the whole procedure are C06. *)
 Require Import BMA.lib.Base BMA.lib.Reflect BMA.gen.GenTypes BMA.gen.GenPure BMA.lib.Prog BMA.gen.GenProg BMA.gen.GenMeta
-               BMA.gen.GenLens BMA.lib.Run BMA.proofs.Generic BMA.proofs.Symex BMA.proofs.BuilderSpec BMA.proofs.Builders BMA.spec.Datasheet.
+               BMA.lib.Encode BMA.gen.GenApi BMA.gen.GenLens BMA.lib.Run BMA.lib.Driver BMA.proofs.Generic BMA.proofs.Rules BMA.proofs.Coherent
+               BMA.proofs.Symex BMA.proofs.BuilderSpec BMA.proofs.Builders BMA.proofs.OdrInv BMA.proofs.OdrOps BMA.spec.Datasheet.
 Require Import BMA.props.C03.
 From Coq Require Import Lia.
 Open Scope N_scope.
@@ -95,6 +100,35 @@ Theorem c10_verdict : forall saved px py pz nx ny nz,
 Proof.
   intros saved px py pz nx ny nz H1 H2 H3 H4 H5 H6. unfold after_reads. cbn [Measurement_x Measurement_y Measurement_z].
   rewrite !c10_no_overflow by assumption. reflexivity.
+Qed.
+
+(* ---- end to end: the configuration is restored ---- *)
+Theorem c10_restores_shadow : forall d, ov d = true ->
+  wpx BMA400_perform_self_test d (fun _ d' => d' = d) (fun _ d' => d' = d).
+Proof.
+  intros d H0. wx_start d H0. cbv delta [BMA400_perform_self_test]; cbv beta.
+  wx. all: subst_eqs; unfold_cfg_fns; cbv_records; reflexivity.
+Qed.
+
+Lemma self_test_preserves : preserves BMA400_perform_self_test.
+Proof. unfold BMA400_perform_self_test. pres_all. Qed.
+
+Theorem c10_restores : forall fl w, Coh w -> ov (shadow w) = true ->
+  match run T_reg BMA400_perform_self_test (begin_call fl w) with
+  | Done _ w' => shadow w' = shadow w /\ forall a v, In (a, v) (Config_dump (shadow w)) -> regs (wchip w') a = regs (wchip w) a
+  | Failed BMA400Error_SelfTestFailedError w' =>
+      shadow w' = shadow w /\ forall a v, In (a, v) (Config_dump (shadow w)) -> regs (wchip w') a = regs (wchip w) a
+  | _ => True
+  end.
+Proof.
+  intros fl w Hc Ho.
+  assert (Hc0 : Coh (begin_call fl w)) by (unfold Coh, wchip, begin_call in *; cbn [shadow hst hchip]; exact Hc).
+  pose proof (self_test_preserves (begin_call fl w) Hc0) as P.
+  pose proof (wpx_run_reg _ BMA400_perform_self_test (begin_call fl w) _ _ (c10_restores_shadow (shadow w) Ho)) as R.
+  destruct (run T_reg BMA400_perform_self_test (begin_call fl w)) as [a w'|e w'|w'|w']; cbn [world_of] in P; try exact I.
+  - cbn [begin_call shadow] in R. split; [exact R|]. intros a0 v Hin. rewrite (Hc a0 v Hin). apply P. rewrite R. exact Hin.
+  - destruct e; try exact I. destruct R as [R|R]; [destruct R|]. cbn [begin_call shadow] in R.
+    split; [exact R|]. intros a0 v Hin. rewrite (Hc a0 v Hin). apply P. rewrite R. exact Hin.
 Qed.
 
 Example c10_example : isub_chk 16 2047 (-2048) = Ok 4095%Z.
